@@ -178,3 +178,14 @@ From HC.Proofs Require Import TieHit.
 Theorem C02_source_decision : forall q e now, src_decide_hit q e now = decide_hit q e now.
 Proof. exact tie_decide_hit. Qed.
 Print Assumptions C02_source_decision.
+
+(* the effect trees this property is stated about — which store / origin / clock operations happen, in which order, under
+   which conditions, and what every path returns — are those /verif/translate derives from the Go source on this run
+   (Generated/SrcEffects.v; equal up to the extensional equality of continuations, ProgEq.peq, which [run] respects) *)
+From HC.Generated Require Import SrcEffects.
+From HC.Proofs Require Import ProgEq TieEffects.
+Theorem C02_source_effects :
+  (forall q e k refs i, peq (src_handle_cache_hit q e k refs i) (handle_cache_hit q e k refs i)) /\
+  (forall ctx q rep, peq (src_handle_validation_response ctx q rep) (handle_validation_response ctx q rep)).
+Proof. repeat split; [exact tie_handle_cache_hit|exact tie_handle_validation_response]. Qed.
+Print Assumptions C02_source_effects.
